@@ -85,6 +85,9 @@ Definition printable_approx (c : N) : bool :=
   if c <? 128 then (32 <=? c) && (c <? 127)
   else negb (((128 <=? c) && (c <=? 160)) || (c =? 173)).
 
+(* unicode.IsLetter || unicode.IsNumber on the code points the generators use *)
+Definition isln_approx (c : N) : bool := uletter c || udigit c.
+
 Record lcase := {
   k_segs : list seg;
   k_ctx : list (text * text);
@@ -112,7 +115,7 @@ Definition check_parse (p : text * option g3) : bool :=
 
 Definition check (k : lcase) : bool :=
   let (o, e) := migrate_template (ctx_of (k_ctx k)) (k_raw_dates k) (k_default_to_self k) (k_url_encode k)
-                  printable_approx (k_segs k) in
+                  printable_approx isln_approx lower_cp (k_segs k) in
   text_eqb o (k_out k) && Bool.eqb e (k_err k) && forallb check_parse (k_exprs k).
 
 Fixpoint mismatches_from (i : N) (ks : list lcase) : list N :=
